@@ -24,6 +24,10 @@ func c13GapDevs(toks []Tok, i int, inPrintComma bool) []string {
 	if cur.Sep {
 		// the canonical text has a newline here (statement separator)
 		d := []string{"\n\n", " \n\t", " # c\n", "\r\n", "\n#x\n\n"}
+		if i == len(toks)-1 {
+			// the end of the text: no newline at all, a comment that runs to the end of the input, trailing blanks
+			d = append(d, "", " # c", " \t\r", "\n\n\n#")
+		}
 		// ';' only where the newline separates two statements: not before '}' or 'else', not after '{' or '}'
 		next := ""
 		if i+1 < len(toks) {
